@@ -119,6 +119,9 @@ func describeFuncValue(v ssa.Value) string {
 			st := fa.X.Type().Underlying().(*types.Pointer).Elem()
 			return lastType(typeKey(st)) + "." + st.Underlying().(*types.Struct).Field(fa.Field).Name()
 		}
+		if fv, ok := x.X.(*ssa.FreeVar); ok {
+			return "freevar." + fv.Name()
+		}
 		// element of a slice that was loaded from a struct field: T.field[]
 		if ia, ok := x.X.(*ssa.IndexAddr); ok {
 			if ld, ok := ia.X.(*ssa.UnOp); ok {
@@ -289,8 +292,16 @@ func (c *Ctx) callInner(in ssa.Instruction, cc *ssa.CallCommon, st *State, defer
 	c.bindResults(env, id.sig, results, con.Names)
 	preCond := c.defineBool("pre", sAnd(preAll...))
 	for _, e := range con.Ensures {
-		// a contract promises its postcondition only when its precondition held
-		c.assumeHere(sImp(preCond, c.evalBool(e.E, env, "callee ensures")))
+		// a contract promises its postcondition only when its precondition held.
+		// A clause that talks about the callee's locals cannot be stated at the call site:
+		// it is simply not assumed there (it is still proved in the callee's body).
+		saveErr := c.err
+		t := c.evalBool(e.E, env, "callee ensures")
+		if saveErr == nil && c.err != nil {
+			c.err = nil
+			continue
+		}
+		c.assumeHere(sImp(preCond, t))
 	}
 	for _, e := range con.Defines {
 		c.assumeHere(sImp(preCond, c.evalBool(e.E, env, "callee defines")))
